@@ -272,3 +272,28 @@ pub broadcast proof fn lemma_empty_contains<A>(x: A)
     ensures !(#[trigger] Seq::<A>::empty().contains(x)),
 {
 }
+/// refcount part of lemma_put_new alone (no size assumptions): used when rebuilding refcounts from a snapshot
+pub proof fn lemma_refs_put_new<K>(m: Map<K, IndexStateItem>, rc: Map<BlobHash, u32>, k: K, it: IndexStateItem)
+    requires m.dom().finite(), rc.dom().finite(), refs_wf(m, rc), !m.contains_key(k), rc_get(rc, it.blob_hash) < u32::MAX,
+    ensures ({ let m2 = m.insert(k, it); let rc2 = inc_rc(rc, it.blob_hash);
+        refs_wf(m2, rc2) && m2.dom().finite() && rc2.dom().finite() }),
+{
+    let m2 = m.insert(k, it); let rc2 = inc_rc(rc, it.blob_hash);
+    assert forall|x: BlobHash| (#[trigger] rc2.contains_key(x) <==> cnt(m2, x) > 0) && (rc2.contains_key(x) ==> rc2[x] as nat == cnt(m2, x)) by {
+        lemma_cnt_insert_new(m, k, it, x);
+    }
+}
+pub proof fn lemma_cnt_le_len<K>(m: Map<K, IndexStateItem>, h: BlobHash)
+    requires m.dom().finite(),
+    ensures cnt(m, h) <= m.dom().len(),
+{
+    vstd::set_lib::lemma_len_subset(m.dom().filter(|k: K| m[k].blob_hash == h), m.dom());
+}
+pub proof fn lemma_refs_empty<K>()
+    ensures refs_wf(Map::<K, IndexStateItem>::empty(), Map::<BlobHash, u32>::empty()),
+{
+    let m = Map::<K, IndexStateItem>::empty();
+    assert forall|h: BlobHash| cnt(m, h) == 0 by {
+        assert(m.dom().filter(|k: K| m[k].blob_hash == h) =~= Set::<K>::empty());
+    }
+}
